@@ -50,6 +50,16 @@ def iterable(cfg, nid, x, depth=4):
         lam = x.args[0]
         return [('map', _norm_elt(lam.body, ast.Name(id=lam.args.args[0].arg, ctx=ast.Load())),
                  _text(cfg, nid, x.args[1]), ())]
+    if isinstance(x, ast.Call) and dotted(x.func) == 'map' and len(x.args) == 2 and not x.keywords:
+        # map(f, xs) with a callable that is not a literal lambda: a local alias is resolved, a bound `d.__getitem__` is d[_]
+        f = reach.expand_expr(cfg, nid, x.args[0], depth=1) if nid is not None and isinstance(x.args[0], ast.Name) \
+            else x.args[0]
+        if isinstance(f, ast.Lambda) and len(f.args.args) == 1:
+            return [('map', _norm_elt(f.body, ast.Name(id=f.args.args[0].arg, ctx=ast.Load())), _text(cfg, nid, x.args[1]), ())]
+        if isinstance(f, ast.Attribute) and f.attr == '__getitem__':
+            return [('map', f'{unparse(f.value)}[_]', _text(cfg, nid, x.args[1]), ())]
+        if isinstance(f, (ast.Name, ast.Attribute)):
+            return [('map', f'{unparse(f)}(_)', _text(cfg, nid, x.args[1]), ())]
     if isinstance(x, ast.BinOp) and isinstance(x.op, ast.Add):
         return iterable(cfg, nid, x.left, depth) + iterable(cfg, nid, x.right, depth)
     if isinstance(x, ast.Name) and depth > 0 and nid is not None:
